@@ -352,6 +352,19 @@ var hostilePieces = []string{
 	"systemdict /true false put systemdict /false true put",
 	"systemdict /StandardEncoding get 65 /hacked put",
 	"StandardEncoding 0 1 255 {1 index exch /x put} for pop",
+	// the same objects reached through views and other operators: a
+	// sub-interval shares its elements with the array it was taken from,
+	// copy and putinterval store like put does, def stores like put does
+	"StandardEncoding 65 1 getinterval 0 /hacked put",
+	"StandardEncoding 32 95 getinterval dup 33 /hacked put 0 [ /q0 /q1 ] putinterval",
+	"[ /h0 /h1 /h2 /h3 ] StandardEncoding 64 8 getinterval copy pop",
+	"StandardEncoding 65 [ /p0 /p1 /p2 ] putinterval",
+	"[ /c0 /c1 /c2 ] StandardEncoding copy pop",
+	"systemdict /StandardEncoding get 0 128 getinterval 0 66 getinterval 65 /hacked2 put",
+	"FontDirectory begin /Evil2 1 dict def end",
+	"1183615869 internaldict begin /y 2 def end",
+	"<< /add {sub} /StandardEncoding 7 >> systemdict copy pop",
+	"<< /typecheck {} >> errordict copy pop << /begincmap {} >> /CIDInit /ProcSet findresource copy pop",
 	"/CIDInit /ProcSet findresource begin /begincmap {} def /endcmap 7 def end",
 	"/CIDInit /ProcSet findresource /begincidchar 7 put",
 	"/CIDInit /ProcSet findresource dup /usecmap {pop} put /endcodespacerange {} put",
